@@ -6,7 +6,6 @@ import (
 	"fmt"
 	"os"
 	"runtime"
-	"strconv"
 	"strings"
 	"testing"
 	"time"
@@ -24,15 +23,6 @@ func TestMain(m *testing.M) {
 	ResetEngineGlobals(nil)
 	EngineOptions = ParseUciOptions(uci.NewUciHandler().Command("uci"))
 	os.Exit(m.Run())
-}
-
-func envInt(name string, def int64) int64 {
-	if v := os.Getenv(name); v != "" {
-		if n, err := strconv.ParseInt(v, 10, 64); err == nil {
-			return n
-		}
-	}
-	return def
 }
 
 // TestWorker runs a batch of seeds (VERIF_PROP, VERIF_FROM, VERIF_COUNT) or
